@@ -17,7 +17,7 @@ pub fn def() -> CheckDef {
         level: "exploration",
         assumptions: &["monotone simulated clock", "child ending `skipped` is not reachable through client actions on the child's acts and is not generated", "no storage errors are injected"],
         probes: &["probe.child_completed", "probe.child_error", "probe.child_aborted", "probe.missing_model", "probe.grandchild", "probe.parent_busy_while_child_runs", "probe.parent_event_delivered_first"],
-        quick_cases: 2500,
+        quick_cases: 5000,
         no_shrink: &[],
     }
 }
